@@ -39,6 +39,8 @@ profile('parser', XP.gen_parser)
 profile('cut', P.gen_cut)
 profile('cut-sweep', P.gen_cut_base, sweep='cut', max_points=500,
         n_interactions=[(2, 1), (3, 2), (2, 3)])
+profile('cut-sweep-full', P.gen_cut_base, sweep='cut', max_points=10**9, small=True,
+        n_interactions=[(3, 1), (3, 2), (1, 3)])
 profile('cancel-sweep', P.gen_core, sweep='cancel', max_points=400, cancels=0.0, errors=False,
         kinds=[(3, 'rr'), (3, 'stream'), (3, 'channel')], n_interactions=[(2, 1), (2, 2), (2, 3)], max_count=8,
         stall_bias=0.15, stall_faults=0.0)
@@ -90,7 +92,7 @@ CHECKS = {
                         'cut': [O.oracle_c07], 'peer-script': [PP.oracle_c07_peer]}, 'level': 'exploration'},
     'C09': {'profiles': [('core-cancel', 4000, 150000), ('cancel-sweep', 60, 2500), ('core-lease', 1000, 40000)],
             'oracles': [O.oracle_c09], 'level': 'exploration'},
-    'C11': {'profiles': [('cut', 4000, 150000), ('cut-sweep', 48, 2000)],
+    'C11': {'profiles': [('cut', 4000, 150000), ('cut-sweep', 32, 1000), ('cut-sweep-full', 12, 400)],
             'oracles': [O.oracle_c11], 'level': 'fault_enumeration'},
     'C14': {'profiles': [('lease-req', 12000, 400000), ('lease-resp', 3000, 100000)],
             'oracles': [PP.oracle_c14], 'level': 'exploration'},
